@@ -459,7 +459,9 @@ def _frame_ops(inp):
         return [{"op": "c02.frame", "kind": kind, "x": L.encV([ps * t for t in Q.dec(f)[0]]), "v": L.encV([vs * t for t in Q.dec(f)[1]])}
                 for f in inp["frames"][0]]
     if kind == "spacelike_to":
-        return [{"op": "c02.frame", "kind": kind, "v": inp["v"]}]
+        # the completed row t = e0 - projection(e0, v̂) needs √(1 + v̂₀²), rarely rational: the Gram–Schmidt rows before the
+        # final normalize and their square-norms are asked for, and normalised in floats here
+        return [{"op": "c02.frame", "kind": kind, "v": inp["v"], "unnormalized": True}]
     return []
 
 
@@ -525,7 +527,12 @@ def judge_contract(inp, obs, lr):
             if res["err"] == "irrational-root":
                 continue      # a root the model would need is irrational for this input: nothing to compare by value
             return {"expected": "model answer", "observed": res, "tags": dict(tags, driver_err=res["err"])}
-        for i, v in enumerate(Q.dec(res["ok"])):
+        ok = res["ok"]
+        if isinstance(ok, dict):
+            ok = [[float(x) / math.sqrt(abs(float(F(q)))) for x in r] for r, q in zip(Q.dec(ok["rows"]), ok["norms"])]
+        else:
+            ok = Q.dec(ok)
+        for i, v in enumerate(ok):
             # a row is prescribed as a point / direction: up to sign (and make_orientation_preserving may negate the last row)
             if not (close(np.array(m)[i], L.fl(v), 1e-9) or close(-np.array(m)[i], L.fl(v), 1e-9)):
                 return {"expected": {"row": i, "model value": [float(x) for x in v]}, "observed": np.array(m)[i].tolist(),
